@@ -36,8 +36,21 @@ FP_SORTS = {
     "float16": z3.Float16(),
     "bfloat16": z3.FPSort(8, 8),
 }
-INT_BITS = {"int32": 32, "int64": 64}
-ELEM_BYTES = {"float32": 4, "float64": 8, "float16": 2, "bfloat16": 2, "int32": 4, "int64": 8}
+INT_BITS = {"int32": 32, "int64": 64, "int16": 16, "int8": 8, "uint8": 8}
+UNSIGNED = {"uint8"}
+ELEM_BYTES = {"float32": 4, "float64": 8, "float16": 2, "bfloat16": 2, "int32": 4, "int64": 8, "int16": 2, "int8": 1, "uint8": 1}
+# ASSUMED torch integer promotion between DIMENSIONED tensors of different integer dtypes: the wider type;
+# uint8 with a signed type of the same or larger width gives that signed type (int8 x uint8 -> int16);
+# arithmetic wraps modulo 2^width (validated: group bits)
+_RANK = {"uint8": 0, "int8": 1, "int16": 2, "int32": 3, "int64": 4}
+
+
+def promote_int(a: str, b: str) -> str:
+    if a == b:
+        return a
+    if {a, b} == {"uint8", "int8"}:
+        return "int16"
+    return a if _RANK[a] > _RANK[b] else b
 
 
 class DTypeTok:
@@ -218,14 +231,17 @@ def _binop(ctx: Ctx, op: str, a: Any, b: Any) -> BitTensor:
         elif op == "<<":
             e2 = a.elem << c
         elif op == ">>":
-            e2 = a.elem >> c  # arithmetic shift (signed ints)
+            e2 = z3.LShR(a.elem, c) if a.dtype in UNSIGNED else a.elem >> c  # arithmetic shift for signed ints
         elif op == "//":
             if b <= 0:
                 raise OutOfReach("floor division by non-positive int")
             # floor division for signed ints, positive divisor
-            q = a.elem / c  # bvsdiv truncates toward zero
-            rem = z3.SRem(a.elem, c)
-            e2 = z3.If(z3.And(rem != 0, a.elem < 0), q - 1, q)
+            if a.dtype in UNSIGNED:
+                e2 = z3.UDiv(a.elem, c)
+            else:
+                q = a.elem / c  # bvsdiv truncates toward zero
+                rem = z3.SRem(a.elem, c)
+                e2 = z3.If(z3.And(rem != 0, a.elem < 0), q - 1, q)
         elif op == "*":
             e2 = a.elem * c
         else:
@@ -247,7 +263,7 @@ def _binop(ctx: Ctx, op: str, a: Any, b: Any) -> BitTensor:
             elif _is0(b) and not _is0(a):
                 dt = a.dtype
             else:
-                dt = "int64"
+                dt = promote_int(a.dtype, b.dtype)
             w = INT_BITS[dt]
 
             def fit(t: BitTensor) -> z3.ExprRef:
@@ -256,7 +272,7 @@ def _binop(ctx: Ctx, op: str, a: Any, b: Any) -> BitTensor:
                     return t.elem
                 if tw > w:
                     return z3.Extract(w - 1, 0, t.elem)
-                return z3.SignExt(w - tw, t.elem)
+                return z3.ZeroExt(w - tw, t.elem) if t.dtype in UNSIGNED else z3.SignExt(w - tw, t.elem)
 
             x, y = fit(a), fit(b)
             e3 = {"+": lambda: x + y, "-": lambda: x - y, "&": lambda: x & y, "|": lambda: x | y, "^": lambda: x ^ y}.get(op)
@@ -317,7 +333,12 @@ def t_randint(interp: Any, args: List[Any], kwargs: Dict[str, Any]) -> Any:
     name = dt.name if isinstance(dt, DTypeTok) else "int64"
     w = INT_BITS[name]
     R = z3.BitVec(ctx.fresh("R"), w)
-    ctx.assume(z3.And(R >= z3.BitVecVal(lo, w), R < z3.BitVecVal(hi, w)) if hi <= 2 ** (w - 1) - 1 else z3.And(z3.UGE(R, z3.BitVecVal(lo, w)), z3.ULT(R, z3.BitVecVal(hi, w))))
+    if name in UNSIGNED or hi > 2 ** (w - 1) - 1:
+        if hi > 2**w:
+            raise PyRaise("RuntimeError", f"randint: high {hi} out of range for {name}")
+        ctx.assume(z3.UGE(R, z3.BitVecVal(lo, w)) if hi == 2**w else z3.And(z3.UGE(R, z3.BitVecVal(lo, w)), z3.ULT(R, z3.BitVecVal(hi, w))))
+    else:
+        ctx.assume(z3.And(R >= z3.BitVecVal(lo, w), R < z3.BitVecVal(hi, w)))
     log = ctx.__dict__.setdefault("randint_calls", [])
     log.append({"low": lo, "high": hi, "size": size, "dtype": name, "R": R})
     if not isinstance(size, Shape):
